@@ -920,6 +920,10 @@ func durations(e *env, gi *int) {
 					fr := r.Pick([]string{".5", ".25", ".75"})
 					fmt.Fprintf(&sb, "%d%sh", q, fr)
 					want += q*3600 + map[string]int64{".5": 1800, ".25": 900, ".75": 2700}[fr]
+				case 1: // any hundredth of an hour is a whole number of seconds (0.01h = 36s): 1.13h is 4068s, not 4067
+					q, hs := int64(r.Range(0, 300)), int64(r.Range(0, 99))
+					fmt.Fprintf(&sb, "%d.%02dh", q, hs)
+					want += q*3600 + hs*36
 				default:
 					q := int64(r.Range(0, 200000))
 					if r.Intn(3) == 0 {
@@ -931,10 +935,14 @@ func durations(e *env, gi *int) {
 				parts++
 			}
 			if r.Intn(2) == 0 {
-				if r.Intn(6) == 0 {
+				if x := r.Intn(6); x == 0 {
 					q := int64(r.Range(0, 5000))
 					fmt.Fprintf(&sb, "%d.5m", q)
 					want += q*60 + 30
+				} else if x == 1 { // any tenth of a minute is a whole number of seconds
+					q, t := int64(r.Range(0, 5000)), int64(r.Range(0, 9))
+					fmt.Fprintf(&sb, "%d.%dm", q, t)
+					want += q*60 + t*6
 				} else {
 					q := int64(r.Range(0, 100000))
 					if r.Intn(2) == 0 {
